@@ -1,9 +1,12 @@
 (* program_ok (hence: every normally terminating run is balanced, on every path) for an explicitly enumerated,
    bounded family of skeleton programs.  The family is the product of
-     - 11 non-primitive expressions (literal, variable, both concatenation forms, `falls` with temporary/variable arms,
-       slice, list literal, element read, calls by value / by Referenz / elided copy, extern call),
-     - 4 conditions (plain, with an unused temporary, und/oder with temporaries on both sides, a call result),
-     - the ownership roles (variable init, assignment, element assignment, discarded result, argument, return value),
+     - 14 non-primitive expressions (literal, variable, both concatenation forms, `falls` with temporary/variable arms,
+       slice, list literal, element read, calls by value / by Referenz / elided copy, extern call; an element of a
+       TEMPORARY list (function result, list literal) on its own and as the taken / other arm of `falls`),
+     - 5 conditions (plain, with an unused temporary, und/oder with temporaries on both sides, a call result, und/oder
+       whose operands compare elements of temporary lists),
+     - the ownership roles (variable init, assignment, element assignment, discarded result, argument of an extern and
+       of a DDP function, component of a list literal, return value),
      - every loop form (Solange, Mache-Solange, Wiederhole, counting up/down with temporaries in from/to/step,
        for-each over a temporary / a variable with a non-primitive loop variable),
      - every exit from an inner scope of the loop body (fallthrough, break, continue, return with a temporary / a
@@ -28,21 +31,28 @@ Definition f_loop : fundef :=
         (SSeq (SWhile (EUse1 (EVar 103)) (SBlock (SSeq (SDecl 104 (EConcat (ELit 4%N) (EVar 103)))
                                                          (SIf EPrim (SBlock (SReturn (Some (EVar 104)))) (SBlock SContinue)))))
               (SReturn (Some (ELit 2%N)))).
-Definition funs : list fundef := [f_id; f_ref; f_const; f_loop].
+(* 4 returns a list of two Texts *)
+Definition f_list : fundef :=
+  mkFun [] true (SReturn (Some (EBuild 32%N (XCons (ELit 5%N) (XCons (ELit 7%N) XNil))))).
+Definition funs : list fundef := [f_id; f_ref; f_const; f_loop; f_list].
 
 (* variable 0 is a Text, variable 1 a list of two Texts (declared in front of every program) *)
 Definition np_exprs : list expr :=
   [ ELit 3%N; EVar 0; EConcat (EVar 0) (ELit 2%N); EConcat (ELit 2%N) (EVar 0);
     EFalls EPrim (ELit 2%N) (EVar 0); EFalls (EUse1 (ELit 4%N)) (EVar 0) (EConcat (ELit 3%N) (ELit 3%N));
     EDerive (EVar 0) 2%N; EPart 1 1;
-    ECall 0 (AVal (EVar 0) ANil); ECall 2 (AVal (EConcat (ELit 2%N) (EVar 0)) ANil); ECall 3 (AVal (ELit 5%N) ANil) ].
+    ECall 0 (AVal (EVar 0) ANil); ECall 2 (AVal (EConcat (ELit 2%N) (EVar 0)) ANil); ECall 3 (AVal (ELit 5%N) ANil);
+    EElem (ECall 4 ANil) 2;
+    EFalls EPrim (EElem (EBuild 32%N (XCons (EVar 0) (XCons (ELit 3%N) XNil))) 1) (EVar 0);
+    EFalls (EUse1 (ELit 4%N)) (EVar 0) (EElem (ECall 4 ANil) 1) ].
 Definition conds : list expr :=
   [ EPrim; EUse1 (ELit 4%N); EAnd (EUse1 (EConcat (EVar 0) (ELit 2%N))) (EUse2 (EVar 0) (ELit 3%N));
-    EUse1 (ECall 0 (AVal (ELit 6%N) ANil)) ].
+    EUse1 (ECall 0 (AVal (ELit 6%N) ANil));
+    EAnd (EUse2 (EElem (ECall 4 ANil) 1) (EVar 0)) (EUse1 (EElem (EBuild 32%N (XCons (ELit 3%N) XNil)) 1)) ].
 
 Definition atoms (e : expr) : list stmt :=
   [ SDecl 10 e; SAssign 0 e; SAssignPart 1 2 e; SExpr e; SExpr (EExt (AVal e ANil) None);
-    SExpr (ECall 1 (ARef 0 ANil)); SDecl 11 (EBuild 32%N (XCons e (XCons (EVar 0) XNil))) ].
+    SExpr (ECall 1 (ARef 0 ANil)); SExpr (ECall 0 (AVal e ANil)); SDecl 11 (EBuild 32%N (XCons e (XCons (EVar 0) XNil))) ].
 Definition exits (in_fun : bool) (e : expr) : list stmt :=
   [ SSkip; SBreak; SContinue ] ++ (if in_fun then [SReturn (Some e); SSeq (SDecl 12 e) (SReturn (Some (EVar 12)))] else []).
 
@@ -65,10 +75,10 @@ Definition main_programs : list program := map (fun s => mkProg funs (SBlock (pr
 (* the same statements as the body of an inlined function that returns a Text *)
 Definition fun_programs : list program :=
   map (fun s => mkProg (funs ++ [mkFun [] true (SSeq (prelude s) (SReturn (Some (EVar 0))))])
-                       (SSeq (SDecl 30 (ECall 4 ANil)) (SExpr (ECall 4 ANil)))) (stmts true).
+                       (SSeq (SDecl 30 (ECall 5 ANil)) (SExpr (ECall 5 ANil)))) (stmts true).
 Definition family : list program := main_programs ++ fun_programs.
 
-Lemma family_size : N.of_nat (length family) = 19866%N.
+Lemma family_size : N.of_nat (length family) = 36064%N.
 Proof. vm_compute. reflexivity. Qed.
 
 Theorem family_ok : forall P, In P family -> program_ok P = true.
